@@ -192,7 +192,9 @@ macro_rules! name_harness {
             let mut lc = [0u8; 64];
             lc[..n].copy_from_slice(r.name.as_bytes());
             lc[0] ^= 0x20; // 'T' -> 't'
-            if let Ok(sl) = core::str::from_utf8(&lc[..n]) {
+            {
+                // ASCII by construction; from_utf8's word-at-a-time validation is costly to symbolically execute
+                let sl = unsafe { core::str::from_utf8_unchecked(&lc[..n]) };
                 let f = TlsCipherSuite::from_name(sl);
                 vassert!(f.is_none(), "C12.from_name.other_string_does_not_find_this_suite");
             }
@@ -212,7 +214,8 @@ macro_rules! name_harness {
             kani::assume(x < 0x80);
             let orig = buf[pos];
             buf[pos] = x;
-            if let Ok(s) = core::str::from_utf8(&buf[..n]) {
+            {
+                let s = unsafe { core::str::from_utf8_unchecked(&buf[..n]) }; // x < 0x80: ASCII
                 let f = TlsCipherSuite::from_name(s);
                 match f {
                     Some(c) => {
